@@ -191,7 +191,7 @@ def gen_mc(scen, outdir=GEN):
         cl_extra = [" Barriers <- cBarriers", " BCount <- cBCount"]
     else:
         cl_extra = []
-    consts = {"PushToStoreTo": True, "StealOn": True, "BypassCap": 64}
+    consts = {"PushToStoreTo": True, "StealOn": True, "BypassCap": 64, "RefetchAfterUnlock": True}
     consts.update(scen.get("consts", {}))
     extra = scen.get("tla_consts", {})  # name -> TLA expression text
     for k, v in extra.items():
